@@ -203,7 +203,7 @@ theorem start_edges (fl : Flavor) (m : Machine) (u : UEnv) (l : LSt) :
     · by_cases hs : startRaises l = true
       · left; simp [opStart, hres, hs]
       · by_cases hu : l.st.status = "uninitialized"
-        · have e : opStart .async m u l = { st := asyncStart m u l.st, loop := true } := by
+        · have e : opStart .async m u l = { st := asyncStart m u l.st, loop := asyncLoopCreated m u l.st } := by
             simp [opStart, hres, hs, hu]
           rw [e]
           rcases asyncStart_status m u l.st with h | h | h
@@ -259,9 +259,24 @@ theorem async_send_before_start_is_queued (m : Machine) (u : UEnv) (e : Ev) (l :
   · exact (send_noop_unless_running .sync m u [] e l (Or.inr (Or.inr (Or.inr ⟨rfl, by rw [h]; decide⟩)))).1
 
 theorem async_presend_processed_at_start (m : Machine) (u : UEnv) (l : LSt) (h : l.st.status = "uninitialized") :
-    opStart .async m u l = { st := asyncStart m u l.st, loop := true } := by
+    opStart .async m u l = { st := asyncStart m u l.st, loop := asyncLoopCreated m u l.st } := by
   have : asyncResumes l = false := by simp [asyncResumes, h]
   simp [opStart, startRaises, this, h]
+
+/-- the run-loop task is created by `start()` only once the initial entry and the eventless settling are
+    over, and only if the interpreter is still running then: a `start()` that failed ("stopped") or that
+    completed the machine at once ("done") attaches none -/
+theorem start_attaches_loop_iff_running_after_settling (m : Machine) (u : UEnv) (l : LSt)
+    (h : l.st.status = "uninitialized") :
+    ((opStart .async m u l).loop = true ↔ (asyncStartSettle m u l.st).status = "running") ∧
+    ((opStart .async m u l).loop = false → (opStart .async m u l).st = asyncStartSettle m u l.st) := by
+  rw [async_presend_processed_at_start m u l h]
+  refine ⟨by simp [asyncLoopCreated], ?_⟩
+  intro hl
+  have hnr : ¬ (asyncStartSettle m u l.st).status = "running" := by simpa [asyncLoopCreated] using hl
+  show asyncStart m u l.st = _
+  unfold asyncStart
+  rw [if_neg hnr]
 
 /-- where a send can leave the status: unchanged, or running → done (or the model's `HANG`) -/
 theorem send_edges (fl : Flavor) (m : Machine) (u : UEnv) (es : List Ev) (l : LSt) :
@@ -497,5 +512,16 @@ example :
      (lrun .async goM exU [.start, .restore, .send (.user "GO"), .start] (LSt.new goM)).st.queue.length,
      (lrun .async goM exU [.start, .restore, .send (.user "GO"), .start] (LSt.new goM)).st.cfg) =
       ("done", true, 0, [[], ["f"]]) := by decide
+
+open XSM.Done.Ex in
+/-- a machine whose initial state is the top-level final state completes inside `start()`: the async
+    interpreter is "done" once entry and settling are over, so NO run-loop task is created (the loop is
+    created after the settling and only for a running interpreter); `goM` itself is still running then and
+    gets one -/
+example :
+    let finM : Machine := { goM with root := .mk (mkD .compound (some "f")) [("f", .mk (mkD .final) [])] }
+    ((opStart .async finM exU (LSt.new finM)).st.status, (opStart .async finM exU (LSt.new finM)).loop,
+     (opStart .async goM exU (LSt.new goM)).st.status, (opStart .async goM exU (LSt.new goM)).loop) =
+      ("done", false, "running", true) := by decide
 
 end XSM.C14
